@@ -3,6 +3,7 @@ property oracle (written from the property text, independent of the model) on ev
 implementation trace."""
 import asyncio
 import itertools
+import re
 import os
 from functools import lru_cache
 from multiprocessing import Pool
@@ -18,7 +19,8 @@ NL = 10
 async def _impl_case(framing, max_size, chunks, mode):
     """mode 0: everything queued before the reader starts; 1: reader drains after each chunk;
     2: reader started first, chunks fed in pairs."""
-    fr = framing.NewlineFramer(max_size)
+    # None: the constructor's default limit
+    fr = framing.NewlineFramer() if max_size is None else framing.NewlineFramer(max_size)
     out = []
     # many cases share one virtual loop and none of them lets virtual time pass: the loop's
     # livelock guard counts per case, not per batch
@@ -36,6 +38,10 @@ async def _impl_case(framing, max_size, chunks, mode):
                 out.append(('M', bytes(await fr.receive_message())))
             except MemoryError:
                 out.append(('E',))
+            except asyncio.CancelledError:
+                raise
+            except Exception as e:      # noqa - not part of the contract: an outcome, judged below
+                out.append(('X', type(e).__name__))
 
     async def settle():
         for _ in range(3):
@@ -93,12 +99,42 @@ async def _cancel_probe(framing):
 def _fmt_out(out):
     if not out:
         return '.'
-    return ' '.join('E' if o[0] == 'E' else ('X' if o[0] == 'X' else 'M' + (o[1].hex() or '-'))
+    return ' '.join('E' if o[0] == 'E' else ('X:' + o[1] if o[0] == 'X' else 'M' + (o[1].hex() or '-'))
                     for o in out)
 
 
+_RUN = re.compile(rb'(.)\1{15,}', re.S)
+
+
+def enc_chunk(c):
+    """hex, long runs of one byte written `xx*count`, parts joined by `+` (the driver's chunk
+    syntax): megabyte chunks stay short on the model line and in a replay file"""
+    c = bytes(c)
+    if len(c) < 64:
+        return c.hex() or '-'
+    parts, pos = [], 0
+    for m in _RUN.finditer(c):
+        if m.start() > pos:
+            parts.append(c[pos:m.start()].hex())
+        parts.append(f'{c[m.start():m.start() + 1].hex()}*{m.end() - m.start()}')
+        pos = m.end()
+    if pos < len(c):
+        parts.append(c[pos:].hex())
+    return '+'.join(parts)
+
+
+def dec_chunk(t):
+    if t == '-':
+        return b''
+    out = b''
+    for p in t.split('+'):
+        h, _, n = p.partition('*')
+        out += bytes.fromhex(h) * (int(n) if n else 1)
+    return out
+
+
 def _fmt_case(max_size, chunks):
-    return f'{max_size} ' + ' '.join((bytes(c).hex() or '-') for c in chunks)
+    return f'{max_size} ' + ' '.join(enc_chunk(c) for c in chunks)
 
 
 # ---------------------------------------------------------------- property oracle
@@ -110,11 +146,15 @@ def segments(stream):
 def newline_chunks(chunks):
     """for each newline of the stream, in order: the length of the chunk that carried it (= the
     final chunk of the segment that newline terminates)"""
-    return [len(c) for c in chunks for b in bytes(c) if b == NL]
+    return [len(c) for c in chunks for _ in range(bytes(c).count(b'\n'))]
 
 
 def oracle(max_size, chunks, out):
     """Returns None if the property holds on this trace, else a reason string."""
+    for o in out:
+        if o[0] == 'X':
+            return (f'unexpected exception: receive_message raised {o[1]} (a call returns a '
+                    'segment or signals a dropped one with MemoryError, nothing else)')
     stream = b''.join(bytes(c) for c in chunks)
     segs, rest = segments(stream)
     final = newline_chunks(chunks)
@@ -206,6 +246,29 @@ def random_case(rng):
     return lim, tuple(chunks)
 
 
+def big_cases(default_limit):
+    """Deterministic (identical for every seed): segments of about a million bytes and of a few
+    MB, cut into 2+ chunks, under limit 0 (= unlimited: every one must be delivered whole), under
+    the constructor's default limit and under that number given explicitly (dropped iff the
+    bytes buffered before the final chunk exceed it).  `None` stands for `NewlineFramer()`."""
+    M = 1000000
+    cases = []
+
+    def seg(n):
+        return b'x' + b'a' * (n - 2) + b'y'
+
+    for lim in (0, None, default_limit):
+        for n in (M - 1, M, M + 1, 2 * M + 500000):
+            s = seg(n)
+            half = n // 2
+            cases.append((lim, (s[:half], s[half:], b'\n', b'bb\n')))        # newline in its own chunk
+            cases.append((lim, (s[:half], s[half:] + b'\nbb\n')))            # newline in the final chunk
+        s = seg(M + 1)
+        cases.append((lim, (s[:400000], s[400000:800000], s[800000:] + b'\n', b'c', b'\n')))
+        cases.append((lim, (b'q\n' + s[:600000], s[600000:], b'\nzz\n')))     # starts as a residual
+    return cases
+
+
 def corpus_cases(verif):
     path = os.path.join(verif, 'corpus', 'C06.txt')
     out = []
@@ -255,24 +318,29 @@ def run_impl(ctx, cases, modes):
 
 def evaluate(ctx, cases, modes, res):
     outs = run_impl(ctx, cases, modes)
-    model = ctx.model([_fmt_case(l, c) for l, c in cases])
-    for i, ((lim, ch), out) in enumerate(zip(cases, outs)):
+    dflt = (ctx.facts or {}).get('default_max_size')
+    dflt = dflt if isinstance(dflt, int) else 1000000
+    eff = [dflt if l is None else l for l, _ in cases]     # None = `NewlineFramer()`
+    model = ctx.model([_fmt_case(e, c) for e, (_, c) in zip(eff, cases)])
+    for i, ((lim0, ch), out) in enumerate(zip(cases, outs)):
+        lim = eff[i]
         got = _fmt_out(out)
         why = oracle(lim, ch, out)
         if why or (model is not None and model[i] != got):
-            case = {'max_size': lim, 'chunks': [bytes(c).hex() for c in ch],
+            case = {'max_size': lim0, 'chunks': [enc_chunk(c) for c in ch],
                     'feed_mode': modes[i]}
+            short = (lambda t: t if len(t) < 2000 else t[:1000] + f'...({len(t)} chars)...' + t[-200:])
             if why:
-                res.violation('c06:' + why[:40], case, why, impl=got)
+                res.violation('c06:' + why[:40], case, why, impl=short(got))
             if model is not None and model[i] != got:
-                res.disagreement(case, got, model[i])
+                res.disagreement(case, short(got), short(model[i]))
         res.count('traces_with_memoryerror', any(o[0] == 'E' for o in out))
         res.count('messages_delivered', sum(o[0] == 'M' for o in out))
         res.count('delivered_over_limit (final-chunk clause exercised)',
                   sum(1 for o in out if lim and o[0] == 'M' and len(o[1]) > lim))
         res.count('cases_with_empty_chunk', any(len(c) == 0 for c in ch))
         if len(ch) >= 2 and any(NL in x for x in ch):
-            res.nontrivial((lim, ch))
+            res.nontrivial((lim, ch) if sum(map(len, ch)) < 4096 else (lim, _fmt_case(lim, ch)))
     res['evaluations'] += len(cases)
     return outs
 
@@ -281,7 +349,8 @@ RULE = ('case = (limit, chunk list); exhaustive over all streams on {a,\\n} up t
         'stated length x every chunking x limits 0..4, plus seeded random streams/'
         'chunkings (framed messages around the limit, empty and 1-byte chunks); '
         'three feeding schedules (all queued first / reader drains after every chunk / '
-        'pairs); non-trivial = at least 2 chunks and at least one newline; distinct = '
+        'pairs); 30 fixed cases with segments of 1 MB - 1 .. 2.5 MB in 2+ chunks under limit 0, the '
+        'default limit and that number given explicitly; non-trivial = at least 2 chunks and at least one newline; distinct = '
         'distinct (limit, chunks) tuples')
 
 
@@ -293,6 +362,11 @@ def run(ctx):
     if cc:
         evaluate(ctx, cc, [1] * len(cc), res)
     res['scopes']['corpus'] = len(cc)
+    # (a') megabyte segments under limit 0 / the default limit: the same cases for every seed
+    dflt = (ctx.facts or {}).get('default_max_size')
+    big = big_cases(dflt if isinstance(dflt, int) and dflt > 0 else 1000000)
+    evaluate(ctx, big, [i % 3 for i in range(len(big))], res)
+    res['scopes']['megabyte_segments'] = len(big)
     # frame round trip via the real frame()
     _init(ctx.repo)
     fr = _framing.NewlineFramer(0)
@@ -338,7 +412,7 @@ def replay(ctx, case):
     if 'case' in case and isinstance(case['case'], dict):
         case = case['case']
     res = Results()
-    c = (case['max_size'], tuple(bytes.fromhex(x) for x in case['chunks']))
+    c = (case['max_size'], tuple(dec_chunk(x) for x in case['chunks']))
     evaluate(ctx, [c], [case.get('feed_mode', 1)], res)
     res.sample(case)
     return res.finish('replay of one recorded case')
